@@ -23,7 +23,25 @@ fn is_cbor_value_level(c: &Codec) -> bool {
     matches!(c.family, Family::CborAbi | Family::CborEdict)
 }
 
+/// Signature component naming the decoder: all serde DTOs go through the one `decode_cbor::<T>`.
+fn sig_name(codec: &Codec) -> &'static str {
+    if codec.name.starts_with("abi-dto.") {
+        "abi-dto(decode_cbor<T>)"
+    } else {
+        codec.name
+    }
+}
+
 fn class_of(codec: &Codec, input: &[u8], reenc: &[u8]) -> String {
+    let c = class_of_detail(codec, input, reenc);
+    if codec.family == Family::CborTyped && input.len() >= codec.cbor_offset && cborx::canonical_violation(&input[codec.cbor_offset..], true).is_none() {
+        // canonical at the CBOR value layer; the serde layer accepted a second spelling of the typed value
+        return "typed-layer-liberal-deserialize".to_owned();
+    }
+    c
+}
+
+fn class_of_detail(codec: &Codec, input: &[u8], reenc: &[u8]) -> String {
     match codec.family {
         Family::CborAbi | Family::CborTyped | Family::CborEdict | Family::CborScene => {
             let o = codec.cbor_offset;
@@ -111,8 +129,13 @@ fn check_bytes(codec: &Codec, input: &[u8], origin: &str, rep: &mut Report, st: 
                 Some(r) => {
                     st.add("accepted_not_canonical", 1);
                     let class = class_of(codec, input, &r);
+                    if class == "typed-layer-liberal-deserialize" {
+                        let detail = class_of_detail(codec, input, &r);
+                        rep.observe("typed_layer_liberal_forms", &format!("{}:{detail}", codec.name));
+                        st.add(&format!("typed_layer_liberal:{detail}"), 1);
+                    }
                     rep.violation(
-                        &format!("C12:{}:accepted-noncanonical:{class}", codec.name),
+                        &format!("C12:{}:accepted-noncanonical:{class}", sig_name(codec)),
                         &format!(
                             "decoder accepts {} ({} bytes, origin {origin}) but the decoded value re-encodes to {} — two byte strings for one value",
                             hex(&input[..input.len().min(80)]),
